@@ -192,19 +192,59 @@ def h_dataflow(fac, mode):
     return h
 
 
+def k_bscale(rep):
+    """where BSCALE enters: the pixel data must be scaled BEFORE the statistics (mean scales by k, noise by |k|: K-sigmaclip),
+    the finished maps must not be multiplied by it, and the written files are divided by it (to be read back scaled)"""
+    rep.kernel('K-bscale', functions=[F + ':sigma_filter', F + ':filter_mc_sharemem', F + ':filter_image'], bounds='syntactic dataflow of header[BSCALE] in the three functions',
+               assumes=['with the scaling applied to the data first, background scales by k and noise by |k| by K-sigmaclip'])
+    sf = slicer.get_function(F, 'sigma_filter')
+    mc = slicer.get_function(F, 'filter_mc_sharemem')
+    fi = slicer.get_function(F, 'filter_image')
+
+    def scaled_targets(fn):
+        out = []
+        for n in ast.walk(fn):
+            if isinstance(n, ast.AugAssign) and isinstance(n.op, ast.Mult) and 'BSCALE' in ast.unparse(n.value):
+                out.append((ast.unparse(n.target), n.lineno))
+            if isinstance(n, ast.Assign) and 'BSCALE' in ast.unparse(n.value) and isinstance(n.value, ast.BinOp) and isinstance(n.value.op, ast.Mult):
+                out.append((ast.unparse(n.targets[0]), n.lineno))
+        return out
+    t_sf = scaled_targets(sf)
+    first_stat = min([n.lineno for n in ast.walk(sf) if isinstance(n, ast.Call) and getattr(n.func, 'id', '') == 'sigmaclip'] or [10 ** 9])
+    ok1 = any(t == 'data' and ln < first_stat for t, ln in t_sf)
+    ok2 = not scaled_targets(mc) and not [t for t, ln in t_sf if t != 'data']
+    div = [ast.unparse(n) for n in ast.walk(fi) if isinstance(n, ast.BinOp) and isinstance(n.op, ast.Div) and 'bscale' in ast.unparse(n.right).lower()]
+    mul = [ast.unparse(n) for n in ast.walk(fi) if isinstance(n, ast.BinOp) and isinstance(n.op, ast.Mult) and 'bscale' in ast.unparse(n).lower()]
+    ok3 = not mul
+    for name, ok in (('bscale:pixel data are scaled by BSCALE before any statistic is computed', ok1), ('bscale:the finished maps are never multiplied by BSCALE', ok2 and ok3)):
+        rep.count('unsat' if ok else 'sat', name)
+        if not ok:
+            bad, cls, detail = bane_oracle(dict(H=48, W=40, grid=4, box=12, cores=2, nslice=2, offset=10.0, scale=2.0, nanblock=False, bscale=-2.5))
+            rep.finding('C06/K-bscale/%s' % (cls or name.split(':')[-1]), dict(kind='bane', cfg=dict(H=48, W=40, grid=4, box=12, cores=2, nslice=2, offset=10.0, scale=2.0, nanblock=False, bscale=-2.5)), detail or name, reproduced=bad)
+    rep.sample(dict(kernel='K-bscale', scaled_in_sigma_filter=t_sf, divisions_in_filter_image=div))
+    rep.end_kernel()
+
+
 # ------------------------------------------------------------------------------------------------
 def h_sigmaclip(bane, n, lo, mode, kval=None):
     def h(c):
         vals = [real('v%d' % i) for i in range(n)]
         arr = real_np.array(vals, dtype=object)
         tag = 'sigmaclip[n=%d,clip=%s,%s]' % (n, lo, mode if kval is None else '%s %s' % (mode, kval))
+        isnan = lambda v: isinstance(v, (float, real_np.floating)) and v != v
         if mode == 'const':
             cc = real('c')
             arr = real_np.array([cc] * n, dtype=object)
             m, s = bane.sigmaclip(arr, lo, lo)
+            if isnan(m) or isnan(s):
+                c.oblige(tag + ':constant samples give (c, 0)', z3.BoolVal(False))
+                return dict()
             c.oblige(tag + ':constant samples give (c, 0)', z3.And(core.lift(m) == cc.e, core.lift(s) == 0))
             return dict()
         m, s = bane.sigmaclip(arr, lo, lo)
+        if isnan(m) or isnan(s):
+            c.oblige(tag + ':finite samples give finite statistics', z3.BoolVal(False))
+            return dict()
         mx = core.sym_max(vals)
         mn = core.sym_min(vals)
         if mode == 'range':
@@ -241,9 +281,18 @@ yy, xx = np.mgrid[0:H, 0:W]
 img = rng.normal(0, 1, (H, W)) + 0.02 * yy
 if cfg.get('nanblock'):
     img[5:9, 7:12] = np.nan
+BS = cfg.get('bscale')
 def run(a, tag):
     fn = os.path.join(d, tag + '.fits')
     hdr = fits.Header(); hdr['BMAJ'] = 1.0; hdr['BMIN'] = 1.0; hdr['CDELT1'] = -0.25; hdr['CDELT2'] = 0.25
+    if BS:
+        # store a/BS with BSCALE=BS so that the physical values are a
+        hdu = fits.PrimaryHDU((a / BS).astype(np.float64), header=hdr)
+        hdu.header['BSCALE'] = BS
+        hdu.writeto(fn, overwrite=True)
+        with fits.open(fn, mode='update', do_not_scale_image_data=True) as h:
+            h[0].header['BSCALE'] = BS
+        return BANE.filter_image(fn, None, step_size=(cfg['grid'], cfg['grid']), box_size=(cfg['box'], cfg['box']), cores=cfg['cores'], nslice=cfg['nslice'], mask=True)
     fits.PrimaryHDU(a.astype(np.float64), header=hdr).writeto(fn, overwrite=True)
     return BANE.filter_image(fn, None, step_size=(cfg['grid'], cfg['grid']), box_size=(cfg['box'], cfg['box']), cores=cfg['cores'], nslice=cfg['nslice'], mask=True)
 out = {}
@@ -261,7 +310,8 @@ res = dict(
     scale_bkg=float(np.nanmax(np.abs(b2 - k * b0))), scale_rms=float(np.nanmax(np.abs(r2 - abs(k) * r0))),
     range_ok=bool(np.nanmin(b0) >= np.nanmin(img) - 1e-6 and np.nanmax(b0) <= np.nanmax(img) + 1e-6 and np.nanmin(r0) >= 0 and np.nanmax(r0) <= np.nanmax(img) - np.nanmin(img)),
     blank_in_blank_out=bool(np.all(~np.isfinite(b0[~fin])) and np.all(~np.isfinite(r0[~fin]))),
-    noblank_extra=int(np.sum(~np.isfinite(b0[fin]))), rms_scale=float(np.nanmedian(r0)))
+    noblank_extra=int(np.sum(~np.isfinite(b0[fin])) + np.sum(~np.isfinite(r0[fin]))) if not cfg.get('nanblock') else 0,
+    const_blank=int(np.sum(~np.isfinite(bc)) + np.sum(~np.isfinite(rc))), rms_scale=float(np.nanmedian(r0)))
 json.dump(res, open(os.path.join(d, 'res.json'), 'w'))
 '''
 
@@ -289,6 +339,8 @@ def bane_oracle(cfg):
     rs = max(r['rms_scale'], 1e-6)
     if not r['shape_ok']:
         return True, 'shape', 'maps do not have the image shape'
+    if r.get('noblank_extra') or r.get('const_blank'):
+        return True, 'blank-in-maps', 'an image without blank pixels gives maps with %d blank pixels (constant image: %d) for grid=%d box=%d' % (r.get('noblank_extra', 0), r.get('const_blank', 0), cfg['grid'], cfg['box'])
     if r['shift_rms'] > 0.02 * rs + abs(cfg['offset']) * 1e-6:
         return True, 'margin-not-subtracted', 'adding %g to the image changed the noise map by up to %.4g (median noise %.3g) with %d stripes' % (cfg['offset'], r['shift_rms'], rs, cfg['nslice'])
     if r['shift_bkg'] > 0.02 * rs + abs(cfg['offset']) * 1e-6:
@@ -298,7 +350,7 @@ def bane_oracle(cfg):
     if r['scale_bkg'] > 0.02 * rs * abs(cfg['scale']) or r['scale_rms'] > 0.02 * rs * abs(cfg['scale']):
         return True, 'scale', 'scaling by %g: bkg deviation %.3g rms deviation %.3g' % (cfg['scale'], r['scale_bkg'], r['scale_rms'])
     if not r['range_ok']:
-        return True, 'range', 'maps leave the range of the input'
+        return True, ('negative-noise-bscale' if cfg.get('bscale') else 'range'), 'maps leave the range of the input (background within the pixel range, 0 <= noise <= range)%s' % (' with BSCALE=%s' % cfg['bscale'] if cfg.get('bscale') else '')
     if not r['blank_in_blank_out']:
         return True, 'mask', 'a blank input pixel is finite in a map'
     return False, None, None
@@ -331,6 +383,7 @@ def run(rep):
         rep.stats(st)
         collect(rep, res, 'K-dataflow')
     rep.end_kernel()
+    k_bscale(rep)
     bane = loader.load_private(['BANE'])['BANE']
     loader.patch(bane)
     rep.kernel('K-sigmaclip', functions=[F + ':sigmaclip'], bounds='n <= 3 samples (n=4 does not finish in nlsat), clip levels 1 (clipping happens) and 3 (as called by BANE); shift by a symbolic constant, scale by k in {2, -3}',
@@ -353,11 +406,13 @@ def run(rep):
                assumes=['concrete executions: validation of the structural obligations at the level of the property statement'])
     for cfg in (dict(H=48, W=40, grid=4, box=12, cores=1, nslice=1, offset=1000.0, scale=-2.5, nanblock=True),
                 dict(H=48, W=40, grid=4, box=12, cores=2, nslice=2, offset=1000.0, scale=3.0, nanblock=False),
-                dict(H=60, W=33, grid=5, box=20, cores=3, nslice=3, offset=-250.0, scale=0.5, nanblock=True)):
+                dict(H=60, W=33, grid=5, box=20, cores=3, nslice=3, offset=-250.0, scale=0.5, nanblock=True),
+                dict(H=48, W=40, grid=4, box=12, cores=2, nslice=2, offset=10.0, scale=2.0, nanblock=False, bscale=-2.5),
+                dict(H=36, W=44, grid=2, box=4, cores=1, nslice=1, offset=5.0, scale=2.0, nanblock=False)):
         bad, cls, detail = bane_oracle(cfg)
         rep.validated_runs(4)
         if bad:
-            rep.finding('C06/K-dataflow/%s' % cls if cls == 'margin-not-subtracted' else 'C06/K-contract/%s' % cls, dict(kind='bane', cfg=cfg), detail)
+            rep.finding('C06/K-dataflow/%s' % cls if cls == 'margin-not-subtracted' else ('C06/K-bscale/%s' % cls if cfg.get('bscale') else 'C06/K-contract/%s' % cls), dict(kind='bane', cfg=cfg), detail)
     rep.end_kernel()
     rep.not_decided += ['interpolation arithmetic (scipy) and float32 casts', 'sampling-error clause for stationary Gaussian noise', 'pixels farther than box/2+grid from every blank are finite (follows from K-grid box extents + the interpolation contract; not posed as a query)',
                         'compressed output (C15)']
@@ -396,8 +451,11 @@ def sigmaclip_replay(m, name):
     m1, s1 = bane.sigmaclip(a + 10.0, lo, lo)
     m2, s2 = bane.sigmaclip(a * -3, lo, lo)
     bad = abs(m1 - m0 - 10) > 1e-9 or abs(s1 - s0) > 1e-9 or abs(m2 + 3 * m0) > 1e-9 or abs(s2 - 3 * s0) > 1e-9 or not (min(vals) - 1e-12 <= m0 <= max(vals) + 1e-12) or s0 < 0
-    mc, sc = bane.sigmaclip(real_np.array([2.5] * max(1, len(vals))), lo, lo)
-    return bool(bad or abs(mc - 2.5) > 1e-12 or abs(sc) > 1e-12)
+    for n in (1, 2, max(1, len(vals))):
+        mc, sc = bane.sigmaclip(real_np.array([2.5] * n), lo, lo)
+        if not (abs(mc - 2.5) <= 1e-12 and abs(sc) <= 1e-12):       # also catches nan
+            return True
+    return bool(bad)
 
 
 def replay(w):
